@@ -50,6 +50,32 @@ SAFE_BUILTINS = {
 
 STEP_LIMIT = 5_000_000
 
+
+def _stable_key(x):
+    return repr(x)
+
+
+class SetFwd(set):
+    """A set whose iteration order is fixed by the interpreter instead of by the per-process hash seed (Interp.set_order):
+    interpreting the same code under SetFwd and SetRev puts every pair of elements in both relative orders, so a result
+    that depends on the iteration order of a set differs between the two interpretations."""
+    __slots__ = ()
+
+    def __iter__(self):
+        return iter(sorted(set.__iter__(self), key=_stable_key))
+
+    def pop(self):
+        x = next(iter(self))
+        self.discard(x)
+        return x
+
+
+class SetRev(SetFwd):
+    __slots__ = ()
+
+    def __iter__(self):
+        return iter(sorted(set.__iter__(self), key=_stable_key, reverse=True))
+
 BINOPS = {
     ast.Add: operator.add, ast.Sub: operator.sub, ast.Mult: operator.mul, ast.Div: operator.truediv,
     ast.FloorDiv: operator.floordiv, ast.Mod: operator.mod, ast.Pow: operator.pow,
@@ -641,6 +667,8 @@ class Interp:
         if name in env.globals:
             return env.globals[name]
         if name in SAFE_BUILTINS:
+            if name == 'set' and getattr(self, 'set_order', None):
+                return self._set_cls()
             return SAFE_BUILTINS[name]
         raise NameError(f'name {name!r} is not defined (interpreted)')
 
@@ -656,7 +684,10 @@ class Interp:
         if t is ast.Call:
             return self.eval_call(node, env)
         if t is ast.BinOp:
-            return BINOPS[type(node.op)](self.eval(node.left, env), self.eval(node.right, env))
+            r = BINOPS[type(node.op)](self.eval(node.left, env), self.eval(node.right, env))
+            if type(r) is set and getattr(self, 'set_order', None):
+                r = self._set_cls()(r)
+            return r
         if t is ast.UnaryOp:
             return UNOPS[type(node.op)](self.eval(node.operand, env))
         if t is ast.BoolOp:
@@ -688,7 +719,7 @@ class Interp:
         if t is ast.List:
             return list(self._elts(node.elts, env))
         if t is ast.Set:
-            return set(self._elts(node.elts, env))
+            return self._set_cls()(self._elts(node.elts, env))
         if t is ast.Dict:
             d = {}
             for k, v in zip(node.keys, node.values):
@@ -771,10 +802,14 @@ class Interp:
         if isinstance(node, ast.ListComp):
             return results
         if isinstance(node, ast.SetComp):
-            return set(results)
+            return self._set_cls()(results)
         if isinstance(node, ast.DictComp):
             return dict(results)
         return iter(results)
+
+    def _set_cls(self):
+        order = getattr(self, 'set_order', None)
+        return SetFwd if order == 'fwd' else SetRev if order == 'rev' else set
 
     def eval_call(self, node, env):
         # zero-argument super()
